@@ -884,7 +884,10 @@ class Diagonalize(Unit):
                  "translations:row-sum:induction-step(n->n+1)",
                  "translations:constant-factor:induction-base(n=0)",
                  "translations:constant-factor:induction-step(n->n+1)",
-                 "translations:sum_j-H[i.d+p,j.d+q].sqrt(m_j)=0"]
+                 "translations:sum_j-H[i.d+p,j.d+q].sqrt(m_j)=0",
+                 "translations:flat-column-index:induction-base(n=0)",
+                 "translations:flat-column-index:induction-step(n->n+1)",
+                 "translations:(H.M^1/2.e_q)[i.d+p]=0"]
 
     def _structure(self, ctx, S, d, Mx):
         """Symmetry and zero modes of the matrix `Mx` that is saved / handed to eigh, derived from its entry-wise form (the value the
@@ -974,7 +977,7 @@ class Diagonalize(Unit):
         # mass weights: instances (g, h) = (B, -B)[p][q], (m_i, m_j) = the masses of every type pair, of the lemma
         #   m_i, m_j > 0, X = g (1/m_i), Y = h (1/sqrt(m_i m_j)), h = -g  =>  X sqrt(m_i) + Y sqrt(m_j) = 0     (C11:lemma:translation-summand:product-form)
         def lemma_inst(X, Y, g, h):
-            return [translation_summand(X, Y, g, h, S.m[a], S.m[b]) for a in range(K) for b in range(K)]
+            return [sv.implies(sv.and_(S.m[a] > 0, S.m[b] > 0), translation_summand(X, Y, g, h, S.m[a], S.m[b])) for a in range(K) for b in range(K)]
 
         def summand_zero(t, c):
             return sv.cmp("==", sv.add(sv.mul(S.BD(i, t, c[0], c[1]), s_i), sv.mul(S.BO(i, t, c[0], c[1]), S.sqrt_mass(t))), 0)
@@ -984,7 +987,7 @@ class Diagonalize(Unit):
             hyp = [sv.cmp("==", S.BD(i, n, c[0], c[1]), S.bd_def(i, n, c[0], c[1])), sv.cmp("==", S.BO(i, n, c[0], c[1]), S.bo_def(i, n, c[0], c[1])),
                    sv.cmp("==", h, sv.neg(g))] + lemma_inst(S.BD(i, n, c[0], c[1]), S.BO(i, n, c[0], c[1]), g, h)
             goals.append(sv.generalize(z3.Implies(conj(hyp), Z(summand_zero(n, c))), [g, h])[0])
-        yield "translations:summand:(B/m_i).sqrt(m_i)-(B/sqrt(m_i.m_n)).sqrt(m_n)=0", conj(goals), {"assume": [cross]}
+        yield "translations:summand:(B/m_i).sqrt(m_i)-(B/sqrt(m_i.m_n)).sqrt(m_n)=0", conj(goals)
         no_self = z3.Implies(S.F_WITHIN(i.t, n.t), Z(sv.cmp("!=", n, i)))
         yield "translations:no-self-term:within(i,n)=>n!=i", sv.generalize(z3.Implies(S.def_within(i, n), no_self), Din)[0]
         # row sum up to n:  R(n):  sum_{t<n} Mx[i d+p, t d+q] sqrt(m_t) = [i<n] DS sqrt(m_i) - sum_{t<n} [within(i,t)] Bdiag(i,t,p,q) sqrt(m_i)
@@ -1014,6 +1017,22 @@ class Diagonalize(Unit):
         # the induction principle (base + step above) gives R(N) and L(N); their instances are assumed here
         yield ("translations:sum_j-H[i.d+p,j.d+q].sqrt(m_j)=0", z3.Implies(fix, Z(sv.cmp("==", rowsum(N), 0))),
                {"assume": [z3.Implies(fix, Z(R(N))), z3.Implies(fix, Z(L(N)))]})
+
+        # the same as a matrix-vector product over the flat column index b = j d + c:  (H v_q)[i d + p] = 0 with
+        # v_q[b] = sqrt(m_{b div d}) if b mod d = q else 0  (= M^1/2 e_q): regrouping  F(n): sum_{b < d n} H[a,b] v_q[b] = rowsum(n), induction over n
+        def v_q(b):
+            return sv.ite(sv.cmp("==", sv.mod(b, d), q), lambda: S.sqrt_mass(sv.floordiv(b, d)), zero)
+
+        def flat(hi):
+            return Sum(0, hi, lambda b: sv.mul(Mx.get((sv.add(sv.mul(i, d), p), b)), v_q(b)))
+
+        def F(k):
+            return sv.cmp("==", flat(sv.mul(d, k)), rowsum(k))
+        deep = {"solver_opts": dict(self.solver_opts or {}, rounds=d + 1, unfold_deep=True)}
+        yield "translations:flat-column-index:induction-base(n=0)", z3.Implies(fix, Z(F(0)))
+        yield "translations:flat-column-index:induction-step(n->n+1)", z3.Implies(z3.And(fix, Z(sv.cmp(">=", n, 0)), Z(F(n))), Z(F(n1))), deep
+        yield ("translations:(H.M^1/2.e_q)[i.d+p]=0", z3.Implies(fix, Z(sv.cmp("==", flat(sv.mul(d, N)), 0))),
+               {"assume": [z3.Implies(fix, Z(F(N))), z3.Implies(fix, Z(sv.cmp("==", rowsum(N), 0)))]})
 
     def replay(self, case, clause, model, seed):
         return _replay_diag(case, clause, model, seed)
